@@ -156,6 +156,15 @@ func c03(r *Run) {
 		}
 	}
 
+	// the ownership flags live in node.mode: it is written only by the flag helpers and where a node is (re)initialised from
+	// the pool - nothing else resets it (a discarded caller-memory node must stay unmanaged)
+	for _, f := range w.Funcs {
+		for _, ins := range findIns(f, func(i ssa.Instruction) bool { return isStoreToField(i, "linkBufferNode", "mode") }) {
+			name := w.FnName(f)
+			ok := name == "(*linkBufferNode).setFlag" || name == "(*linkBufferNode).unsetFlag" || name == "newLinkBufferNode"
+			r.ob("C03.R3:who-writes-node-mode:"+name, "linkBufferNode.mode (managed / exposed flags) is written only by setFlag, unsetFlag and the constructor: resetting it elsewhere makes caller memory look like a pool block", f, ins, ok, "in "+name, false)
+		}
+	}
 	// ---- R2 free is guarded by ownership ---------------------------------------------------------------
 	{
 		isDec := func(v ssa.Value) bool {
@@ -404,6 +413,7 @@ func c03(r *Run) {
 
 	// ---- R6 reference-count shape (shared with C02.R5) and R7 caller memory is never handed out for writing (C01.R5)
 	r.borrow([]string{"C02.R5:"}, "C02.R5", "C03.R6", func() { c02(r) })
+	r.borrow([]string{"C02.R2:recycle-only-unexposed", "C02.R2:reset-only-unexposed", "C02.R2:who-recycles"}, "C02.R2", "C03.R8", func() { c02(r) })
 	r.borrow([]string{"C02.R4:WriteDirect:unlinked-split"}, "C02.R4", "C03.R6", func() { c02(r) })
 	r.borrow([]string{"C01.R5:"}, "C01.R5", "C03.R7", func() { c01(r) })
 
